@@ -67,6 +67,19 @@ CHECKS = {
              'exact reconstruction) inside correct framing.',
         note='Trusted: reference model R. Fields wider than 50 bits with non-zero scale are outside the quantifier. '
              'Corpus messages whose exact table version is not bundled cannot be re-encoded (encoder has no fall-back).'),
+    'C04': dict(
+        level='model_checking', design='DESIGN.md §4 C04',
+        technique='exhaustive enumeration of the full product data-bit-length 0..32 x descriptor-count form x edition '
+                  '{2,3,4} x section-2 variant, with deviation-bounded (E1) declared lengths per section and total '
+                  '(encoder, recomputing and honouring), surplus octets per section x trailing bytes (decoder), and every '
+                  'declared length shorter than the content; oracle = independent FM-94 message builder/parser',
+        text='For every structure of the product the real encoder must produce the byte-identical message the reference '
+             'builder produces (recomputing), or the zero-filled / refused message when declared lengths are honoured; '
+             'the real decoder must return unchanged values, the exact BUFR..7777 span and the declared section lengths '
+             'for every surplus vector within the deviation bound and every trailing byte string, and must refuse every '
+             'section declared shorter than its content.',
+        note='Trusted: mc.ref.message (layout from FM-94). Deviation bound 1 (quick) / 2 (thorough) on simultaneous '
+             'non-default declared lengths / surplus sections; data lengths beyond 32 bits repeat residues mod 16.'),
     'C05': dict(
         level='model_checking', design='DESIGN.md §4 C05',
         technique='exhaustive enumeration of ALL columns over the full raw domain (n<=3,w<=3; thorough n<=4,w<=4) per '
